@@ -22,7 +22,24 @@ from __future__ import annotations
 import asyncio
 import re
 
-from . import coqterm as T
+from . import coqterm as _T
+
+
+class T:
+    """coqterm without the %N suffixes (the case files open N_scope: fewer tokens)"""
+    boolean = staticmethod(_T.boolean)
+    lst = staticmethod(_T.lst)
+    pair = staticmethod(_T.pair)
+
+    @staticmethod
+    def N(n: int) -> str:
+        assert n >= 0
+        return str(n)
+
+    @staticmethod
+    def nlist(ns) -> str:
+        ns = list(ns)
+        return '(@nil N)' if not ns else '[' + ';'.join(str(x) for x in ns) + ']'
 from .pymap_env import Conn, DictEnv
 
 FLAG_NUM = {b'\\answered': 1, b'\\deleted': 2, b'\\draft': 3, b'\\flagged': 4,
@@ -648,14 +665,18 @@ def enc_nn(pairs) -> str:
     return T.lst(T.pair(T.N(a), T.N(b)) for a, b in pairs)
 
 
-def enc_sel_obs(o) -> str:
+def enc_sel_obs(o, heavy=True) -> str:
     if o is None:
         return 'None'
-    fk = T.lst(T.pair(T.N(u), enc_flags(f)) for u, f in o['fkeys']) if o['fkeys'] \
-        else '(@nil (N * flags))'
+    if heavy:
+        fk = T.lst(T.pair(T.N(u), enc_flags(f)) for u, f in o['fkeys']) if o['fkeys'] \
+            else '(@nil (N * flags))'
+        extra = f'(Some ({enc_nn(o["seqs"])}, {fk}))'
+    else:
+        extra = 'None'
     return ('(Some (' + ', '.join([
-        T.nlist(o['sorted']), enc_nn(o['seqs']), fk, T.nlist(o['pending']), T.nlist(o['recent']),
-        enc_opt(o['modseq'], T.N), T.boolean(o['hide'])]) + '))')
+        T.nlist(o['sorted']), T.nlist(o['pending']), T.nlist(o['recent']),
+        enc_opt(o['modseq'], T.N), T.boolean(o['hide']), extra]) + '))')
 
 
 def enc_nl(pairs) -> str:
@@ -665,11 +686,15 @@ def enc_nl(pairs) -> str:
     return T.lst(T.pair(T.N(q), T.nlist(s)) for q, s in pairs)
 
 
-def enc_box_obs(o) -> str:
+def enc_box_obs(o, heavy=True) -> str:
     msgs = T.lst('(' + ', '.join([T.N(u), enc_flags(f), T.boolean(r)]) + ')'
                  for u, f, r in o['msgs']) if o['msgs'] else '(@nil (N * flags * bool))'
-    return '(' + ', '.join([T.N(o['max_uid']), msgs, T.N(o['highest']), enc_nn(o['uids']),
-                            enc_nl(o['updates']), enc_nl(o['expunges']), T.nlist(o['order'])]) + ')'
+    if heavy:
+        log = ('(Some (' + ', '.join([enc_nn(o['uids']), enc_nl(o['updates']),
+                                      enc_nl(o['expunges']), T.nlist(o['order'])]) + '))')
+    else:
+        log = 'None'
+    return '(' + ', '.join([T.N(o['max_uid']), msgs, T.N(o['highest']), log]) + ')'
 
 
 def enc_step(label, responses, obs, last=None, full=True) -> str:
@@ -679,17 +704,17 @@ def enc_step(label, responses, obs, last=None, full=True) -> str:
     out = T.lst(enc_resp(r) for r in responses) if responses else '(@nil resp)'
     sels, boxes = [], []
     for s, o in obs['sels'].items():
-        e = enc_sel_obs(o)
-        if full or last is None or last.get(('s', s)) != e:
-            sels.append(T.pair(T.N(s), e))
+        light = enc_sel_obs(o, heavy=False)
+        if full or last is None or last.get(('s', s)) != light:
+            sels.append(T.pair(T.N(s), enc_sel_obs(o, heavy=full)))
         if last is not None:
-            last[('s', s)] = e
+            last[('s', s)] = light
     for n, o in obs['boxes'].items():
-        e = enc_box_obs(o)
-        if full or last is None or last.get(('b', n)) != e:
-            boxes.append(T.pair(T.N(n), e))
+        light = enc_box_obs(o, heavy=False)
+        if full or last is None or last.get(('b', n)) != light:
+            boxes.append(T.pair(T.N(n), enc_box_obs(o, heavy=full)))
         if last is not None:
-            last[('b', n)] = e
+            last[('b', n)] = light
     sels_t = T.lst(sels) if sels else '(@nil (N * option sel_obs))'
     boxes_t = T.lst(boxes) if boxes else '(@nil (N * box_obs))'
     return f'({enc_label(label)}, MkObs {out} {sels_t} {boxes_t})'
@@ -699,11 +724,12 @@ def enc_case(setup, steps) -> str:
     """steps = [(label, responses, obs)]"""
     pre = T.lst(enc_label(x) for x in setup) if setup else '(@nil label)'
     last: dict = {}
-    parts = [enc_step(*s, last=last, full=(i == 0 or i == len(steps) - 1))
+    parts = [enc_step(*s, last=last, full=(i == len(steps) - 1 or i % 8 == 7))
              for i, s in enumerate(steps)]
     body = T.lst(parts) if parts else '(@nil (label * step_obs))'
     return f'({pre},\n   {body})'
 
 
 HEADER = ('From PV Require Import Base.Prelude Store.Base Store.Flags Store.ModSeq Store.Mailbox '
-          'Store.View Store.Compare Store.Session Store.System Store.StoreCheck Wire.SeqSet.\n')
+          'Store.View Store.Compare Store.Session Store.System Store.StoreCheck Wire.SeqSet.\n'
+          'Local Open Scope N_scope.\n')
